@@ -17,7 +17,8 @@ class Check(PropertyCheck):
                   "_counterexample; liveness: replay_variant_decreases, replay_run_bounded, terminal_event_enabled, "
                   "finish_sets_outcome, every_replay_completes, fair_completion_exists; option read at dispatch: "
                   "dispatch_reads_option_at_take, sequential_while_option_is_one, no_dispatch_while_awaiting, "
-                  "started_replays_accounted, all_started_replays_complete) about a model of ClientPlayback (check, start_replay's preparation, stop_replay's "
+                  "started_replays_accounted, all_started_replays_complete; stop at full strength: stop_restores_backup, "
+                  "fresh_backup_is_pre, stop_restores_pre_iff) about a model of ClientPlayback (check, start_replay's preparation, stop_replay's "
                   "revert, the playback loop with client_replay_concurrency as part of the state — switchable at any moment, read "
                   "when a dequeued flow is dispatched: awaited replay (1) or background task (-1) — ReplayHandler.done, "
                   "flow.live) and of Flow.backup/revert, for EVERY "
@@ -34,7 +35,9 @@ class Check(PropertyCheck):
                   "half-open peers) is exercised by the winddown of every script and compared through the variant value "
                   "at every step, not proved. stop_restores_queued holds only for flows without an older backup (finding "
                   "F-C53a: Flow.backup() keeps an existing backup); the full statement is refuted by "
-                  "stop_restores_queued_counterexample. trusted: asyncio.Queue is FIFO; a flow's editable state is "
+                  "stop_restores_queued_counterexample, and stop_restores_backup states for EVERY queued flow what stop "
+                  "does instead (it becomes the backup it carried when queued), so the model predicts the F-C53a outcome "
+                  "and the tie compares it. trusted: asyncio.Queue is FIFO; a flow's editable state is "
                   "abstracted to response/error/is_replay + an edit counter; flow.live is modelled as set at the start "
                   "and cleared at the end of a replay of the flow. a replay that fails after the response headers had arrived leaves a partial "
                   "flow.response next to flow.error — 'has a response' is compared for flows without error only. stop_replay while a queued flow has a replay running over "
